@@ -20,6 +20,11 @@ def omp_lib():
     return None
 
 
+def c02_agree(a, b):
+    from .c02 import agree
+    return agree(a, b)
+
+
 def run(ctx):
     from dtaidistance import dtw, dtw_ndim
     res = Result()
@@ -155,6 +160,29 @@ def run(ctx):
                 res.violations.append({"clause": "parallel == serial, element for element", "route": name, "n": n,
                                        "block": b, "series": series, "kwargs": repr(kw), "serial": serial,
                                        "parallel": par})
+    # ---- every keyword that reaches the parallel routes (progress reporting, compact / square result): the pairs come
+    # back in the order they were handed out even when workers finish out of order (two long series among short ones)
+    for k in range(3 if ctx.thorough else 1):
+        long_ = [[float(rng.randint(-3, 3)) for _ in range(260)] for _ in range(2)]
+        short = [[float(rng.randint(-3, 3)) for _ in range(rng.randint(2, 5))] for _ in range(rng.randint(3, 5))]
+        coll = [np.array(x) for x in (long_[:1] + short[:1] + long_[1:] + short[1:])]
+        serial = list(dtw.distance_matrix(coll, compact=True, parallel=False, use_c=False))
+        for name, rk in (("mp-python, show_progress", dict(use_c=False, parallel=True, show_progress=True)),
+                         ("mp-c, show_progress", dict(use_c=True, parallel=True, use_mp=True, show_progress=True)),
+                         ("omp, show_progress", dict(use_c=True, parallel=True, show_progress=True))):
+            res.evaluations += 1
+            res.hit("route_" + name.replace(", ", "_"))
+            try:
+                par = list(dtw.distance_matrix(coll, compact=True, **rk))
+            except BaseException as e:
+                if isinstance(e, (KeyboardInterrupt, SystemExit)):
+                    raise
+                res.violations.append({"clause": "parallel routine raised", "route": name,
+                                       "got": impl.exc_name(e) + ": " + str(e)[:120]})
+                continue
+            if len(par) != len(serial) or any(not c02_agree(impl.canon(a_), impl.canon(b_)) for a_, b_ in zip(par, serial)):
+                res.violations.append({"clause": "parallel == serial, element for element", "route": name,
+                                       "lengths": [len(x) for x in coll], "serial": serial, "parallel": par})
     # ---- OpenMP runtimes that grant fewer threads than requested (thread limit / dynamic adjustment): sub-processes
     envs = [{"OMP_NUM_THREADS": "4", "OMP_THREAD_LIMIT": "2"}, {"OMP_NUM_THREADS": "7", "OMP_THREAD_LIMIT": "3"},
             {"OMP_NUM_THREADS": "64", "OMP_DYNAMIC": "true"}, {"OMP_NUM_THREADS": "6", "OMP_SCHEDULE": "dynamic,2"}]
